@@ -125,9 +125,6 @@ func (c *conn) Transport(ctx context.Context, request []byte) (response []byte, 
 
 func (c *conn) Exit(onExit func(), err error) {
 	onExit()
-	if e := recover(); e != nil {
-		err = core.NewPanicError(e)
-	}
 	if err != nil {
 		c.Close(err)
 	}
@@ -145,6 +142,10 @@ func (c *conn) send(request data) (err error) {
 func (c *conn) Send(ctx context.Context, onExit func()) {
 	var err error
 	defer func() {
+		// recover must be called by the deferred function itself
+		if e := recover(); e != nil {
+			err = core.NewPanicError(e)
+		}
 		c.Exit(onExit, err)
 	}()
 	for {
@@ -193,6 +194,10 @@ func (c *conn) receive() (err error) {
 func (c *conn) Receive(ctx context.Context, onExit func()) {
 	var err error
 	defer func() {
+		// recover must be called by the deferred function itself
+		if e := recover(); e != nil {
+			err = core.NewPanicError(e)
+		}
 		c.Exit(onExit, err)
 	}()
 	for {
